@@ -56,8 +56,8 @@ theorem nofn_phase2 (f : Nat) (P : Prog) (s1 s2 : St) (hs : Emit.Inv s1) (hc : C
     exact c3 g ((Inv.mem_sortedKeys _ _).2 hmem) hd i hg hgi im hi
 
 /-- **the teardown is simulated** (the bundle) -/
-theorem teardown_bun (f : Nat) (P : Prog) {s : St} {t : Spec.LSt} {s' : St} (hb : Bun s t)
-    (h : Model.teardown f P s = some s') : ∃ t', Spec.teardown f P t = some t' ∧ Bun s' t' := by
+theorem teardown_bun (f : Nat) (P : Prog) {e : Option String} {s : St} {t : Spec.LSt} {s' : St} (hb : Bun e s t)
+    (h : Model.teardown f P s = some s') : ∃ t', Spec.teardown f P t = some t' ∧ Bun e s' t' := by
   rw [Inv.teardown_eq] at h
   rw [spec_teardown_eq]
   split at h
@@ -79,6 +79,56 @@ theorem teardown_bun (f : Nat) (P : Prog) {s : St} {t : Spec.LSt} {s' : St} (hb 
   rw [hb2.rel.G, hb3.rel.T]
   exact ⟨t', ht', hb'⟩
 
+/-! ## the teardown never runs out of fuel (its operations run no user code) -/
+
+theorem tdQuiet_some (f : Nat) (P : Prog) (s : St) (k : Nat) (op : Op)
+    (hop : op = .delK k ∨ op = .delC k ∨ op = .delS k ∨ op = .clear k ∨ op = .delT k) :
+    ∃ s1, Inv.tdQuiet (f+1) P s op = some s1 := by
+  have h : ∃ r, execOp (f+1) P s op = some r := by
+    rcases hop with rfl | rfl | rfl | rfl | rfl
+    all_goals (
+      rw [execOp]
+      · simp only [modeRule]
+        split <;> exact ⟨_, rfl⟩
+      all_goals simp)
+  obtain ⟨r, hr⟩ := h
+  unfold Inv.tdQuiet
+  rw [hr]
+  exact ⟨_, rfl⟩
+
+theorem tdSeq_some (f : Nat) (P : Prog) : ∀ (ops : List Op) (s : St),
+    (∀ op ∈ ops, ∃ k, op = .delK k ∨ op = .delC k ∨ op = .delS k ∨ op = .clear k ∨ op = .delT k) →
+    ∃ s', Inv.tdSeq (f+1) P (some s) ops = some s' := by
+  intro ops
+  induction ops with
+  | nil => intro s _; exact ⟨s, rfl⟩
+  | cons op ops ih =>
+    intro s h
+    obtain ⟨k, hk⟩ := h op (by simp)
+    obtain ⟨s1, h1⟩ := tdQuiet_some f P s k op hk
+    rw [Inv.tdSeq_cons, h1]
+    exact ih s1 (fun o ho => h o (List.mem_cons_of_mem _ ho))
+
+/-- with at least one unit of fuel the model's teardown terminates -/
+theorem teardown_terminates (f : Nat) (P : Prog) (s : St) : ∃ s', Model.teardown (f+1) P s = some s' := by
+  rw [Inv.teardown_eq]
+  obtain ⟨s1, h1⟩ := tdSeq_some f P ((sortedKeys s.K).map Op.delK) s (by
+    intro op hop; obtain ⟨k, _, rfl⟩ := List.mem_map.mp hop; exact ⟨k, Or.inl rfl⟩)
+  rw [h1]
+  simp only
+  obtain ⟨s2, h2⟩ := tdSeq_some f P ((sortedKeys s1.C).map Op.delC ++ (sortedKeys s1.S).map Op.delS
+      ++ (sortedKeys s1.G).map Op.clear) s1 (by
+    intro op hop
+    simp only [List.mem_append, List.mem_map] at hop
+    rcases hop with (⟨k, _, rfl⟩ | ⟨k, _, rfl⟩) | ⟨k, _, rfl⟩
+    · exact ⟨k, Or.inr (Or.inl rfl)⟩
+    · exact ⟨k, Or.inr (Or.inr (Or.inl rfl))⟩
+    · exact ⟨k, Or.inr (Or.inr (Or.inr (Or.inl rfl)))⟩)
+  rw [h2]
+  simp only
+  exact tdSeq_some f P _ _ (by
+    intro op hop; obtain ⟨k, _, rfl⟩ := List.mem_map.mp hop; exact ⟨k, Or.inr (Or.inr (Or.inr (Or.inr rfl)))⟩)
+
 end Td
 
 /-! ## what is left after the teardown -/
@@ -94,6 +144,13 @@ theorem spec_liveTotal_zero {s : St} {t : Spec.LSt} (hR : R s t) (hS : s.S = [])
   simp [Spec.liveTotal, h1, h2]
 
 /-! ## lines -/
+
+/-- the final line never reads like the fuel notice -/
+theorem final_ne_fuel (n : Nat) : (s!"0 final live={n}" : String) ≠ "MODEL-FUEL" := by
+  intro h
+  have := congrArg String.toList h
+  simp [toString] at this
+
 
 /-- specification line vs model line: equal, or the specification leaves the result open (`… => *`) -/
 def LineAllows (ls lm : String) : Prop :=
